@@ -35,6 +35,26 @@ Theorem C19_crash_safe :
 Proof. exact crash_safe. Qed.
 Print Assumptions C19_crash_safe.
 
+(* the same under the most general damage model: the crash may leave EVERY file named by a call issued
+   so far (the new part files, their directories) in ANY state - lost buffers, torn or reordered
+   writes - as long as it changes no file that none of those calls names; the interrupted-call
+   model `crash_at` above is an instance *)
+Theorem C19_crash_safe_any_damage :
+  forall (R : Type) (parse_md : bytes -> option (list path)) (decode : bytes -> list (option bytes) -> R)
+         (refs : list path) (tr tr1 : list call) (c : call) (tr2 : list call) (s s' : fs),
+    refs_of parse_md s = Some refs ->
+    safe_trace refs tr -> tr = tr1 ++ c :: tr2 ->
+    existsb is_md_open tr1 = false -> is_md_open c = false ->
+    damaged_by (tr1 ++ [c]) s s' ->
+    read_dataset R parse_md decode s' = read_dataset R parse_md decode s
+    /\ forall q, In q (md_name :: cmd_name :: refs) -> lookup q s' = lookup q s.
+Proof. exact crash_safe_any_damage. Qed.
+Print Assumptions C19_crash_safe_any_damage.
+
+Theorem C19_interrupted_call_is_damage : forall tr1 c s s', crash_at tr1 c s s' -> damaged_by (tr1 ++ [c]) s s'.
+Proof. exact crash_is_damage. Qed.
+Print Assumptions C19_interrupted_call_is_damage.
+
 Theorem C19_no_write_open_existing : forall refs tr, safe_trace refs tr ->
   forall p t, In (OpenW p t) tr -> ~ In p refs.
 Proof. exact no_write_open_existing. Qed.
@@ -73,6 +93,22 @@ Theorem C19_complete :
     = Some (decode (concat md) (map (fun p => lookup p s) refs ++ map Some (new_contents off rgs))).
 Proof. exact append_complete_read. Qed.
 Print Assumptions C19_complete.
+
+(* beyond the property's text: once _metadata has been written and closed, a failure in any call on
+   _common_metadata (with any partial effect) leaves a dataset that a fresh open reads exactly as
+   after the complete append - the new content *)
+Theorem C19_crash_in_common_metadata :
+  forall (R : Type) (parse_md : bytes -> option (list path)) (decode : bytes -> list (option bytes) -> R)
+         refs partitioned rgs md cmd off tr1 c tr2 s s',
+    find_max_part refs = Some off -> good_dirs rgs = true ->
+    write_file cmd_name cmd = tr1 ++ c :: tr2 ->
+    let done := concat (map (block_calls partitioned) (new_files off rgs)) ++ write_file md_name md in
+    crash_at (done ++ tr1) c s s' ->
+    parse_md (concat md) = Some (refs ++ new_paths off rgs) ->
+    read_dataset R parse_md decode s'
+    = read_dataset R parse_md decode (run_trace (done ++ write_file cmd_name cmd) s).
+Proof. exact crash_in_common_metadata. Qed.
+Print Assumptions C19_crash_in_common_metadata.
 
 (* non-vacuity: a dataset {_metadata, part.0.parquet}; the append writes part.1.parquet, then the
    summary.  The trace is safe; a short write into the new part (crash in call 3) leaves every old
